@@ -14,6 +14,7 @@ import (
 	"io"
 	"net"
 	"strconv"
+	"strings"
 	"sync"
 	"time"
 
@@ -94,6 +95,12 @@ func streamSweep(env *vh.Env, rep *vh.Report, rng *vh.Rng, encs []enc) {
 	}
 	var mu sync.Mutex
 	var found []finding
+	type mline struct {
+		line   string
+		realOK bool
+		rc     replayCase
+	}
+	var mlines []mline
 	counts := map[string]int{}
 	var wg sync.WaitGroup
 	sem := make(chan struct{}, 12)
@@ -113,6 +120,17 @@ func streamSweep(env *vh.Env, rep *vh.Report, rng *vh.Rng, encs []enc) {
 			defer func() { <-sem }()
 			local := map[string]int{}
 			var fs []finding
+			var ml []mline
+			planStr := func(pi int) string {
+				out := ""
+				for i, k := range fragPlans[pi] {
+					if i > 0 {
+						out += ","
+					}
+					out += strconv.Itoa(k)
+				}
+				return out
+			}
 			// the complete encoding: same object as from a byte slice, in every way the stream can
 			// end after the data (an end signalled together with the last bytes is allowed to fail)
 			var ref []byte
@@ -122,6 +140,10 @@ func streamSweep(env *vh.Env, rep *vh.Report, rng *vh.Rng, encs []enc) {
 				var got []byte
 				o := vh.Guard(func() { obj := decodeStream(e.kind, e.b, plan, end); got = reencode(obj) })
 				local["stream:full:"+o.String()]++
+				if strings.HasPrefix(e.kind, "prim:") {
+					ml = append(ml, mline{"C " + planStr(pi) + " " + e.kind[5:] + " " + vh.Hex(e.b), o.OK(),
+						replayCase{Mode: "stream", Kind: e.kind, Typ: e.typ, Hex: vh.Hex(e.b), N: len(e.b), What: strconv.Itoa(pi) + ":" + strconv.Itoa(end)}})
+				}
 				what := fmt.Sprintf("fragments %v, %s", plan, endNames[end])
 				if refOK && !o.OK() {
 					fs = append(fs, finding{"stream-rejects-complete:" + e.typ, e.typ + ": the complete encoding is refused when it arrives over a connection (" + what + "): " + vh.Clip(o.Panic, 80),
@@ -141,6 +163,10 @@ func streamSweep(env *vh.Env, rep *vh.Report, rng *vh.Rng, encs []enc) {
 				}
 				o := vh.Guard(func() { decodeStream(e.kind, e.b[:n], fragPlans[pi], end) })
 				local["stream-prefix:"+endNames[end]+":"+o.String()]++
+				if strings.HasPrefix(e.kind, "prim:") {
+					ml = append(ml, mline{"C " + planStr(pi) + " " + e.kind[5:] + " " + vh.Hex(e.b[:n]), o.OK(),
+						replayCase{Mode: "stream", Kind: e.kind, Typ: e.typ, Hex: vh.Hex(e.b), N: n, What: strconv.Itoa(pi) + ":" + strconv.Itoa(end)}})
+				}
 				if o.OK() {
 					fs = append(fs, finding{"stream-short-read-accepted", fmt.Sprintf("%s: a connection that ends after %d of the %d bytes of a valid encoding (fragments %v, %s) decodes to an object: a read was answered with bytes that were never received", e.typ, n, len(e.b), fragPlans[pi], endNames[end]),
 						replayCase{Mode: "stream", Kind: e.kind, Typ: e.typ, Hex: vh.Hex(e.b), N: n, What: strconv.Itoa(pi) + ":" + strconv.Itoa(end)}, "property"})
@@ -151,6 +177,7 @@ func streamSweep(env *vh.Env, rep *vh.Report, rng *vh.Rng, encs []enc) {
 				counts[k] += v
 			}
 			found = append(found, fs...)
+			mlines = append(mlines, ml...)
 			mu.Unlock()
 		}(e, seeds[ei])
 	}
@@ -165,6 +192,23 @@ func streamSweep(env *vh.Env, rep *vh.Report, rng *vh.Rng, encs []enc) {
 	}
 	for _, f := range found {
 		rep.Fail(f.kind, f.key, f.summary, f.rc)
+	}
+	// the stream model (FailClosed.runC over the same fragments) must agree with the implementation
+	lines := make([]string, len(mlines))
+	for i, m := range mlines {
+		lines[i] = m.line
+	}
+	outs, err := vh.RunDriver(env.Driver, lines)
+	if err != nil {
+		vh.Die("%v", err)
+	}
+	for i, o := range outs {
+		modelOK := strings.HasPrefix(o, "ok")
+		rep.Count("model:stream:" + strings.Fields(o)[0])
+		if modelOK != mlines[i].realOK {
+			rep.Fail("correspondence", "model:stream-outcome",
+				fmt.Sprintf("primitive program over a fragmented connection: implementation ok=%v, model %s", mlines[i].realOK, o), mlines[i].rc)
+		}
 	}
 }
 
